@@ -37,5 +37,8 @@ def run(repo, tier) -> Result:
     from .c17 import check_geometry
 
     check_geometry(res, repo, prop="C16")
+    from .c20 import check_resolver_shape
+
+    check_resolver_shape(res, repo, prop="C16")
     check_index_contracts(res, repo, prop="C16")
     return res
